@@ -107,6 +107,78 @@ example : ∃ s, Reach s ∧ (7 : Uuid) ∈ s.procs 1 ∧ s.phase = .scheduling 
   have r9 := Reach.step r8 (Step.startExec _ 1 7 true rfl)
   exact ⟨_, r9, by decide, rfl⟩
 
+/-! ### A1 is necessary: the escape hatch of `fixStaleLocks` (finding F11)
+
+`fixStaleLocks` may finish while an instance that still runs a container has not been probed:
+on its timeout, when such an instance is shut down as unresponsive while still Unknown, or at
+once when no *Locked* container is missing from `Running()` (e.g. the surviving process belongs
+to a container that was unlocked before the restart). `StepU` adds that step without the A1
+guard; mutual exclusion then fails. -/
+
+inductive StepU : PState → PState → Prop where
+  | base {s t : PState} : Step s t → StepU s t
+  /-- `fixStaleLocks` returns although an unprobed instance may still run containers -/
+  | giveUp (s : PState) (h1 : s.phase = .recovering) : StepU s { s with phase := .scheduling }
+
+inductive ReachU : PState → Prop where
+  | init : ReachU PState.init
+  | step {s t : PState} : ReachU s → StepU s t → ReachU t
+
+/-- Mutual exclusion without assumption A1. -/
+def C14_mutual_exclusion_Full : Prop :=
+  ∀ s, ReachU s → ∀ (c : Uuid) (i j : Nat), c ∈ s.procs i → c ∈ s.procs j → i = j
+
+/-- It is false: container 7 runs on instance 1, the dispatcher restarts and gives up waiting
+before instance 1 has been probed, locks (not modelled) and starts 7 on the new instance 2. -/
+theorem C14_mutual_exclusion_full_fails : ¬ C14_mutual_exclusion_Full := by
+  intro hfull
+  have r0 := ReachU.init
+  have r1 := ReachU.step r0 (.base (Step.recoveryDone _ rfl (by intro i _; rfl)))
+  have r2 := ReachU.step r1 (.base (Step.instCreate _ 1 rfl rfl rfl rfl))
+  have r3 := ReachU.step r2 (.base (Step.poolAdd _ 1 .booting .run 1 rfl (Or.inr rfl)))
+  have r4 := ReachU.step r3 (.base (Step.probeBegin _ 1 _ rfl rfl (by decide)))
+  have r5 := ReachU.step r4 (.base (Step.probeSample _ 1 _ rfl rfl))
+  have r6 := ReachU.step r5 (.base (Step.probeDone _ 1 _
+    ⟨1, true, true, false, [], false, false⟩ (some []) rfl rfl (fun _ => rfl)))
+  have r7 := ReachU.step r6 (.base (Step.schedKillFalse _ 7 rfl (by
+    rintro i ⟨w, hw, hc⟩
+    by_cases hi : i = 1
+    · subst hi
+      simp only [upd_same, Option.some.injEq] at hw
+      subst hw
+      revert hc; decide
+    · simp [upd, hi, PState.init] at hw)))
+  have r8 := ReachU.step r7 (.base (Step.schedStart _ 1 7 _ rfl rfl rfl (by decide) (by decide) rfl))
+  have r9 := ReachU.step r8 (.base (Step.startExec _ 1 7 true rfl))
+  -- the dispatcher dies; the new one gives up before instance 1 is probed
+  have r10 := ReachU.step r9 (.base (Step.restart _))
+  have r11 := ReachU.step r10 (.giveUp _ rfl)
+  have r12 := ReachU.step r11 (.base (Step.instCreate _ 2 rfl rfl rfl rfl))
+  have r13 := ReachU.step r12 (.base (Step.poolAdd _ 2 .booting .run 1 rfl (Or.inr rfl)))
+  have r14 := ReachU.step r13 (.base (Step.probeBegin _ 2 _ rfl rfl (by decide)))
+  have r15 := ReachU.step r14 (.base (Step.probeSample _ 2 _ rfl rfl))
+  have r16 := ReachU.step r15 (.base (Step.probeDone _ 2 _
+    ⟨3, true, true, false, [], false, false⟩ (some []) rfl rfl (fun _ => rfl)))
+  have r17 := ReachU.step r16 (.base (Step.schedKillFalse _ 7 rfl (by
+    rintro i ⟨w, hw, hc⟩
+    by_cases hi : i = 2
+    · subst hi
+      simp only [upd_same, Option.some.injEq] at hw
+      subst hw
+      revert hc; decide
+    · simp [upd, hi] at hw)))
+  have r18 := ReachU.step r17 (.base (Step.schedStart _ 2 7 _ rfl rfl rfl (by decide) (by decide) rfl))
+  have r19 := ReachU.step r18 (.base (Step.startExec _ 2 7 true rfl))
+  have := hfull _ r19 7 1 2 (by decide) (by decide)
+  cases this
+
+/-- `C14_mutual_exclusion` above is the partial theorem: it holds for `Reach`, whose
+`recoveryDone` step carries A1 as its guard. Every `Reach`able state is `ReachU`able. -/
+theorem C14_reach_sub (s : PState) (h : Reach s) : ReachU s := by
+  induction h with
+  | init => exact ReachU.init
+  | step _ st ih => exact ReachU.step ih (.base st)
+
 /-! ### the queue cache: finished and re-queued containers -/
 
 /-- Once the dispatcher's queue shows a container as Complete or Cancelled it never shows it as
